@@ -173,11 +173,10 @@ Proof.
   - inversion E; subst; apply wf_primary; exact H.
   - destruct (is_values v); inversion E; subst; exact H.
 Qed.
-Lemma wf_last_red : forall b m st v a, wf_val st v -> last_red b m v = Ok a -> wf_val st a.
+Lemma wf_last_red : forall m st v a, wf_val st v -> last_red m v = Ok a -> wf_val st a.
 Proof.
-  intros b m st v a H E. destruct m, b; simpl in E; try (inversion E; subst; try exact H; apply wf_primary; exact H).
-  - destruct (is_values v); inversion E; subst; exact H.
-  - destruct (is_values v); inversion E; subst; exact H.
+  intros m st v a H E. destruct m; simpl in E; try (inversion E; subst; try exact H; apply wf_primary; exact H).
+  destruct (is_values v); inversion E; subst; exact H.
 Qed.
 Lemma wf_or_step : forall m st v r, wf_val st v -> or_step m v = Ok (Some r) -> wf_val st r.
 Proof.
@@ -349,15 +348,6 @@ Proof. intros; split; [assumption|split; [assumption|]]. intros a0 C; inversion 
 Lemma wf_callable_ext : forall st st' c, ext st st' -> wf_callable st c -> wf_callable st' c.
 Proof. intros st st' [ps body sc|p] E W; simpl in *; [eapply wf_scope_ext; eauto|exact I]. Qed.
 
-Lemma ev_progn_wf : forall es st sc, wf_state st -> wf_scope st sc -> good_res st wf_val (ev_progn m ev st sc es).
-Proof.
-  induction es as [|e es IH]; intros st sc W S; [apply good_ret; [assumption|apply wf_nil]|].
-  destruct es as [|e' es'].
-  - simpl. eapply good_bind; [apply Hev; assumption|]. intros v s E Ws Vs.
-    apply good_out; [assumption|]. intros a Ha. eapply wf_last_red; eauto.
-  - change (ev_progn m ev st sc (e :: e' :: es')) with (bind (ev st sc e) (fun v st1 => ev_progn m ev st1 sc (e' :: es'))).
-    eapply good_bind; [apply Hev; assumption|]. intros v s E Ws Vs. apply IH; [assumption|eapply wf_scope_ext; eauto].
-Qed.
 Lemma ev_cond_wf : forall cls st sc, wf_state st -> wf_scope st sc -> good_res st wf_val (ev_cond m ev st sc cls).
 Proof.
   induction cls as [|[c body] cls IH]; intros st sc W S; simpl; [apply good_ret; [assumption|apply wf_nil]|].
@@ -540,7 +530,7 @@ Proof.
     apply good_ret; [assumption|eapply wf_cell_get; eauto].
   - (* EQuote *) apply good_ret; [assumption|apply wf_val_inj].
   - (* EFun *) apply good_bindo; [assumption|]. intros c Hc. apply good_ret; [assumption|constructor].
-  - (* EProgn *) apply ev_progn_wf; assumption.
+  - (* EProgn *) apply ev_seq_wf; [assumption|assumption|apply wf_nil].
   - (* EProg1 *) change (evalF m ev st sc (EProg1 e es)) with (bind (ev_args m ev st sc (e :: es)) (fun vs st1 => (Ok (hd VNil vs), st1))).
     gb ltac:(apply ev_args_wf). intros vs s E Ws Vs. apply good_ret; [assumption|apply wf_hd; assumption].
   - (* EIf *) gb ltac:(apply ev_test_wf). intros t s E Ws _. destruct t; [apply Hev; ws|apply ev_opt_wf; ws].
